@@ -571,7 +571,10 @@ class TBRMatchedMarkets:
     tmp_diag = TBRMMDiagnostics(np.random.normal(range(100)), self.parameters)
     tmp_diag.x = list(range(len(tmp_diag.y)))
     tmp_score = TBRMMScore(tmp_diag)
-    tmp_score.score = tmp_score.score._replace(
+    # The placeholder score is set directly: evaluating the score of the dummy
+    # series would fail when its 100 time points are too few for the A/A test
+    # with the given n_test.
+    tmp_score.score = tbrmmscore.Scoring(
         corr_test=0,
         aa_test=0,
         bb_test=0,
